@@ -7,6 +7,10 @@
 #             harness/drv_isolation.cc against the extracted model; after EVERY step the dump (unparse + JSON)
 #             of every other document, of every handle obtained from another document and of a fresh parse
 #             must be unchanged;
+#      (alias) histories over storage that several parties CAN reach (Sys/HeapShare.v: template values in several documents,
+#             direct values moved between documents, streams whose foreign copies share a Buffer, Buffers handed to the
+#             caller and edited in place) against the second extracted model; after EVERY step unparse / stream data / JSON /
+#             QPDFWriter bytes of every other document, every retained handle and every other Buffer must be unchanged;
 #      (solo) the history restricted to one document must give that document the same dumps;
 #      (file) bystander check on real PDF files (processMemoryFile, writeJSON, QPDFWriter, copyForeignObject);
 #      (thr)  N threads x independent jobs under ThreadSanitizer, outputs compared with the solo runs.
@@ -19,7 +23,9 @@ import common, pdfgen
 
 ASSUMPTIONS = [
     "the theorems quantify over all interleavings of the MODEL's steps; the implementation's interleavings are only sampled and ThreadSanitizer only sees executed paths",
-    "the heap model covers parse / makeIndirectObject / replaceKey / removeKey / appendItem / setArrayItem / eraseItem / replaceObject / ~QPDF on null, bool, integer, name, array (dense and sparse), dictionary, reference; streams, strings, reals, copyForeignObject and the writer are covered by the implementation-side bystander oracle only",
+    "the first heap model (Sys/Heap.v, disjoint arenas) covers parse / makeIndirectObject / replaceKey / removeKey / appendItem / setArrayItem / eraseItem / replaceObject / ~QPDF on null, bool, integer, name, array (dense and sparse), dictionary, reference; the second (Sys/HeapShare.v, shared storage) adds context-free parse, handles of other parties as values, unfiltered streams of every provenance, newStream / replaceStreamData / copyForeignObject of objects without indirect parts / getRawStreamData / getStreamData / QPDFWriter memory output / in-place edits of handed-out Buffers; strings, reals, filtered streams, page helpers and the writer's bytes are covered by the implementation-side bystander oracles only",
+    "hx_frame_other_parties has the premise that no document sees another document's indirect objects (xsep_b); the extracted test runs on every world the histories reach (a failure is reported), its preservation is not proved; model closures have depth <= 41, the generator nests far less",
+    "the alias alphabet only edits in place what no other party can reach, never writes into a Buffer after passing it to replaceStreamData(shared_ptr<Buffer>), leaves /Length out of dumps (derived data), and the driver keeps destroyed documents' storage allocated (dangling QPDF* of unattached direct objects is compared by address in checkOwnership)",
     "operations of one document only use handles obtained from that document (the property's premise); the driver enforces it by tagging every held handle",
 ]
 
@@ -930,7 +936,7 @@ def part_alias(chk, drv, runner):
     """histories over storage that several parties can reach: direct containers shared by documents and program
     variables, stream data buffers shared by a stream and its foreign copies, buffers handed to the caller"""
     rng = chk.rng
-    n = 80 if chk.tier == "quick" else 5000
+    n = 120 if chk.tier == "quick" else 5000
     fams = (("templates", xgen_templates), ("takeout", xgen_takeout), ("buffers", xgen_buffers), ("copyedit", xgen_copyedit), ("random", xgen_random))
     hists, fam = list(XCORPUS), {h: "corpus" for h in XCORPUS}
     for i in range(n):
@@ -1350,6 +1356,11 @@ def run(chk):
                        "~QPDF, write, JSON export) run by the real library and by the extracted heap model; after every call the dumps of all "
                        "other documents, of handles obtained from them and of two fresh parses must be unchanged; non-trivial = history with "
                        ">= 4 performed calls on which the frame held and the model agrees, distinct by history text")
+    chk.cov["rule"] += ("; alias: histories over 2-3 documents and the program's own handles (families: template values put into several documents that die; a direct "
+                        "container taken out of one document and put into another; streams of every provenance copied both ways with the Buffers from "
+                        "getRawStreamData / getStreamData / QPDFWriter edited in place and passed back; a source edited through the API, copied, the destination working on "
+                        "its copy; random) against the extracted shared-storage model; after every step every other document (unparse, stream dictionary + raw data, JSON, "
+                        "QPDFWriter bytes), every retained handle and every other Buffer variable must be unchanged; non-trivial = >= 5 performed calls, frame held, model agrees")
     import time
     for name, fn in (("seq", lambda: part_seq(chk, drv, runner)), ("alias", lambda: part_alias(chk, drv, runner)), ("file", lambda: part_file(chk, drv)), ("log", lambda: part_log(chk, drv, runner)),
                      ("copy", lambda: part_copy(chk, drv)), ("thr", lambda: part_thr(chk))):
@@ -1378,6 +1389,16 @@ def replay(chk, rep):
         print("model         :", m[:2000])
         print("frame violations:", bad[:3] if bad else bad)
         return 1 if (bad or strip_hash(i) != m) else 0
+    if line and line.startswith("isox "):
+        i = common.run_lines(drv, [line])[0]
+        m = common.run_lines(runner, [line.replace("!", "")])[0]
+        st = xparse_steps(i)
+        bad = xframe_violations(line[5:], st) if st else None
+        print("implementation:", i[:3000])
+        print("model         :", m[:3000])
+        print("frame violations:", bad[:3] if bad else bad)
+        mclean = "#".join(x.split("|", 1)[0].replace("^nosep", "") + "|" + x.split("|", 1)[1].rstrip() for x in m.split("#") if "|" in x)
+        return 1 if (bad or xstrip(i) != mclean) else 0
     if line and line.startswith("isolog "):
         print("implementation:", common.run_lines(drv, [line])[0])
         print("model         :", common.run_lines(runner, [line])[0])
